@@ -114,9 +114,12 @@ def recognised_tags(rng, kind):
             pool = [[("a", ["1", "2"]), ("flag", [""])][:rng.choice([1, 2])],
                     [("bounds", ["[1 10]"]), ("labels", ["(a b)", "c"])][:rng.choice([1, 2])],
                     [("unit", [""]), ("set", ["{x y z}"])],
-                    [("Opts", ["[p q]", "r", "(s t)"])]]
+                    [("Opts", ["[p q]", "r", "(s t)"])],
+                    # names with word separators keep every later letter as written (only the first is upper-cased)
+                    [("per-second", ["2"]), ("burst.max", ["10"]), ("x:y", ["1"])][:rng.choice([1, 2, 3])]]
             args = [] if rng.random() < 0.4 else rng.choice(pool)
-            return [mk_tag(tag, rng.choice(["x", "x.y", "k9", ""]), args)]
+            # a value with blanks around it, or of blanks only, is the value
+            return [mk_tag(tag, rng.choice(["x", "x.y", "k9", "", "x", "k9", " - ", "   ", " | "]), args)]
         return [mk_tag("value", rng.choice(CONST[kind]))]
     if kind in ("dep", "depi", "depis"):
         if rng.random() < 0.7:
